@@ -1,6 +1,6 @@
 \* C10 thorough: all graph families, 3 block heights; behaviours carry the pre-state expectation.
 CONSTANTS
-  GraphIds = {1,2,3,4,5,6,7,8,9}
+  GraphIds = {1,2,3,4,5,6,7,8,9,12}
   MaxTip = 3
   Mat = 2
   LeaseIds = {1}
